@@ -51,3 +51,126 @@ func (r *Run) finishOD(where string, pos token.Pos, res orderdom.Result, specTex
 		r.Fail(where+":order-domain", pos, nil, "%s differs from its specification %q: %s", where, specText, res.Mismatch.String())
 	}
 }
+
+// keepBest decides the "keep the best candidate" idiom of a selection loop: within one iteration
+// the running result `best` (a local declared outside the loop) is replaced by the candidate
+// exactly when there is no result yet or key(candidate) > key(best) — in whatever arrangement of
+// guards, early continues or merged conditions the body spells it. usesKey tells whether an
+// expression reads the ordering key; keyNames maps the canonical source text of the key of x
+// ("x.SeqNum()", "x.Id", ...) given x's text. Returns the running-result variable (nil if none).
+func (r *Run) keepBest(info *types.Info, loopBody *ast.BlockStmt, where string, usesKey func(ast.Expr) bool, keyTexts func(x string) []string, specText string) types.Object {
+	// the running result: an outer local assigned in the body, mentioned by a condition that reads the key
+	outer := func(o types.Object) bool {
+		v, ok := o.(*types.Var)
+		return ok && !v.IsField() && (v.Pos() < loopBody.Pos() || v.Pos() > loopBody.End())
+	}
+	mentions := func(e ast.Node, o types.Object) bool {
+		found := false
+		ast.Inspect(e, func(n ast.Node) bool {
+			if id, ok := n.(*ast.Ident); ok && info.Uses[id] == o {
+				found = true
+			}
+			return !found
+		})
+		return found
+	}
+	var best types.Object
+	cands := map[string]bool{}
+	ast.Inspect(loopBody, func(n ast.Node) bool {
+		if _, ok := n.(*ast.FuncLit); ok {
+			return false
+		}
+		as, ok := n.(*ast.AssignStmt)
+		if !ok || as.Tok != token.ASSIGN || len(as.Lhs) != len(as.Rhs) {
+			return true
+		}
+		for i, l := range as.Lhs {
+			o := prog.IdentObj(info, l)
+			if o == nil || !outer(o) {
+				continue
+			}
+			keyed := false
+			ast.Inspect(loopBody, func(m ast.Node) bool {
+				if is, ok := m.(*ast.IfStmt); ok && usesKey(is.Cond) && mentions(is.Cond, o) {
+					keyed = true
+				}
+				if sw, ok := m.(*ast.SwitchStmt); ok && sw.Tag == nil {
+					for _, cl := range sw.Body.List {
+						for _, ce := range cl.(*ast.CaseClause).List {
+							if usesKey(ce) && mentions(ce, o) {
+								keyed = true
+							}
+						}
+					}
+				}
+				return !keyed
+			})
+			if keyed {
+				best = o
+				cands[types.ExprString(as.Rhs[i])] = true
+			}
+		}
+		return true
+	})
+	if best == nil {
+		return nil
+	}
+	if len(cands) != 1 {
+		r.Fail(where+":candidates", loopBody.Pos(), nil, "the running result %s is replaced by %d different values", best.Name(), len(cands))
+		return best
+	}
+	var cn string
+	for c := range cands {
+		cn = c
+	}
+	// one iteration: the top-level statements from the first that mentions the running result
+	// (descending into a guard that merely filters the candidates: `if isCandidate { ...selection... }`)
+	var tail []ast.Stmt
+	list := loopBody.List
+	for depth := 0; depth < 4; depth++ {
+		tail = nil
+		for i, st := range list {
+			if mentions(st, best) {
+				tail = list[i:]
+				break
+			}
+		}
+		if len(tail) == 0 {
+			break
+		}
+		is, ok := tail[0].(*ast.IfStmt)
+		later := false
+		for _, st := range tail[1:] {
+			if mentions(st, best) {
+				later = true
+			}
+		}
+		if !ok || later || is.Else != nil || mentions(is.Cond, best) || (is.Init != nil && mentions(is.Init, best)) {
+			break
+		}
+		list = is.Body.List
+	}
+	if len(tail) == 0 {
+		return nil
+	}
+	bn := best.Name()
+	names := map[string]string{bn + " == nil": "?none", bn + " != nil": "?some"}
+	for _, t := range keyTexts(cn) {
+		names[t] = "cand"
+	}
+	for _, t := range keyTexts(bn) {
+		names[t] = "best"
+	}
+	m := orderdom.New(info, names)
+	m.AssignEffect = func(o types.Object) bool { return o == best }
+	res := m.CheckBody(tail,
+		func(e odEnv) bool { return e.Rank["cand"] != e.Rank["best"] && e.Bool["?none"] != e.Bool["?some"] },
+		func(e odEnv) orderdom.Value {
+			if e.Bool["?none"] || e.Rank["cand"] > e.Rank["best"] {
+				return orderdom.Sym("effect")
+			}
+			return orderdom.Sym("end")
+		})
+	r.finishOD(where, tail[0].Pos(), res, specText)
+	return best
+}
